@@ -7,6 +7,8 @@ import ClairModel.Model.Matchers
     rpmcmp <a> <b>                       -> -1 | 0 | 1
     debcmp <a> <b>                       -> err | hang | -1 | 0 | 1
     debnew <a>                           -> err | hex of NewVersion(a).String()
+    apkcmp <a> <b>                       -> -1 | 0 | 1
+    apkvalid <a>                         -> true | false
     rpmstr <a>                           -> hex of NewVersion(a).String()
     archop <op> <a> <b> <re>             -> true | false
     vuln <matcher> <pkgver> <pkgarch> <fixed> <vulnpkgver> <vulnpkgarch> <archop> <re> [<gate>]
@@ -59,6 +61,7 @@ def vulnLine (m : String) (p : Pkg) (v : Vuln) (gate : Option RhelGate) : Option
   | "suse" => some (vulnerableSuse p v)
   | "photon" => some (vulnerablePhoton p v)
   | "rhcc" => some (vulnerableRhcc p v)
+  | "alpine" => some (vulnerableAlpine p v)
   | "debian" => some (vulnerableDebian p v)
   | "ubuntu" => some (vulnerableUbuntu p v)
   | "rhel" => gate.map fun g => vulnerableRhel g p v
@@ -79,6 +82,8 @@ def answer (l : String) : Option String :=
     match VerDeb.newVersion (← str a) with
     | none => pure "err"
     | some v => pure (hexOf v.toStr)
+  | ["apkcmp", a, b] => do pure (ordStr (VerApk.compare (← str a) (← str b)))
+  | ["apkvalid", a] => do pure (toString (VerApk.valid (← str a)))
   | ["archop", op, a, b, re] => do
     pure (toString (archCmp (← op.toNat?) (← str a) (← str b) (← parseRe re)))
   | "vuln" :: m :: pv :: pa :: fx :: vv :: va :: op :: re :: rest => do
